@@ -90,34 +90,37 @@ def scenarios(tier):
     for cred in creds:
         for withrec in (False, True):
             fo = {'plugins': [plugins.recorder('after')]} if withrec else {}
-            fa = ['--threadless', '--basic-auth', cred.decode()]
-            for (rname, mk, addr) in requests():
-                hv = header_variants(cred, tier)
-                for (label, lines, exp) in hv:
-                    raw = mk(lines)
-                    pks = [('whole', [raw])]
-                    if lines:
-                        i = raw.find(lines[0]) + len(lines[0]) // 2
-                        pks.append(('cut_in_header', [raw[:i], raw[i:]]))
-                    if tier == 'thorough' or label in ('absent', 'exact/Basic/std/Proxy-Authorization', 'dup-bad-good'):
-                        pks.append(('per_byte', [raw[i:i + 1] for i in range(len(raw))]))
-                    if tier == 'quick' and withrec and rname in ('POST', 'HEADERS-FIRST'):
-                        pks = pks[:1]
-                    for pname, pieces in pks:
-                        # second request on the same connection, with and without the header
-                        for second in ((None,) if rname == 'CONNECT' or (tier == 'quick' and pname != 'whole')
-                                       else (None, 'with', 'without')):
-                            script = [('send', p) for p in pieces] + [('wait_idle',)]
-                            if second:
-                                l2 = [b'Proxy-Authorization: Basic ' + b64(cred)] if second == 'with' else []
-                                script += [('send', mk(l2).replace(b'/g ', b'/g2 ').replace(b'/p ', b'/p2 ')), ('wait_idle',)]
-                            out.append(Scenario(
-                                '%s/%s/%s/%s/%s/%s' % (cred.decode(), 'rec' if withrec else 'norec', rname, label, pname, second),
-                                fa, flags_opts=fo, mode='local', clients=[dict(script=script)], origins=origins,
-                                dns={'h.test': '10.0.0.1'}, kinds='', horizon=1500,
-                                features={'method': rname, 'variant': label.split('/')[0], 'expect': exp,
-                                          'recorder': withrec, 'packing': pname, 'second': str(second),
-                                          '_cred': cred, '_label': label}))
+            for dis in ((), ('--disable-headers', 'x-foo,accept-encoding')):
+              fa = ['--threadless', '--basic-auth', cred.decode()] + list(dis)
+              for (rname, mk, addr) in requests():
+                  hv = header_variants(cred, tier)
+                  for (label, lines, exp) in hv:
+                      if dis and label not in ('absent', 'exact/Basic/std/Proxy-Authorization', 'exact/basic/std/proxy-authorization', 'exact/Basic/std/pRoXy-AuThOrIzAtIoN', 'otheruser/Basic/std/Proxy-Authorization', 'dup-good-good'):
+                          continue
+                      raw = mk(lines)
+                      pks = [('whole', [raw])]
+                      if lines:
+                          i = raw.find(lines[0]) + len(lines[0]) // 2
+                          pks.append(('cut_in_header', [raw[:i], raw[i:]]))
+                      if tier == 'thorough' or label in ('absent', 'exact/Basic/std/Proxy-Authorization', 'dup-bad-good'):
+                          pks.append(('per_byte', [raw[i:i + 1] for i in range(len(raw))]))
+                      if tier == 'quick' and withrec and rname in ('POST', 'HEADERS-FIRST'):
+                          pks = pks[:1]
+                      for pname, pieces in pks:
+                          # second request on the same connection, with and without the header
+                          for second in ((None,) if rname == 'CONNECT' or (tier == 'quick' and pname != 'whole')
+                                         else (None, 'with', 'without')):
+                              script = [('send', p) for p in pieces] + [('wait_idle',)]
+                              if second:
+                                  l2 = [b'Proxy-Authorization: Basic ' + b64(cred)] if second == 'with' else []
+                                  script += [('send', mk(l2).replace(b'/g ', b'/g2 ').replace(b'/p ', b'/p2 ')), ('wait_idle',)]
+                              out.append(Scenario(
+                                  '%s/%s%s/%s/%s/%s/%s' % (cred.decode(), 'rec' if withrec else 'norec', '+dis' if dis else '', rname, label, pname, second),
+                                  fa, flags_opts=fo, mode='local', clients=[dict(script=script)], origins=origins,
+                                  dns={'h.test': '10.0.0.1'}, kinds='', horizon=1500,
+                                  features={'method': rname, 'variant': label.split('/')[0], 'expect': exp,
+                                            'recorder': withrec, 'packing': pname, 'second': str(second), 'disable_headers': bool(dis),
+                                            '_cred': cred, '_label': label}))
     return out
 
 
